@@ -91,8 +91,10 @@ SweepRep(a, b, us, i, k) ==
     ELSE <<Sound(Interp(a, b, i, k))>> \o (IF us > 0 THEN <<Wt(us)>> ELSE <<>>) \o SweepRep(a, b, us, i + 1, k)
 SweepM(a, b, d, k, neg) == (IF k >= 1 THEN SweepRep(a, b, StepUs(d, k, neg), 0, k) ELSE <<>>) \o <<Off>>
 
-Tempo(name, t) == IF t = NONE \/ t <= 0 THEN Score(name).tempo ELSE t
-NoteUs(q, T) == (q * 15000000) \div T                 \* q quarter beats at T beats per minute = q/4 * 60000/T ms
+\* The tempo argument is in beats per minute; a value >= 10000 encodes a FRACTIONAL tempo in tenths (10075 = 7.5 bpm,
+\* 11875 = 187.5 bpm).  Tempo() is in tenths of a beat per minute.
+Tempo(name, t) == IF t = NONE \/ t <= 0 THEN 10 * Score(name).tempo ELSE IF t >= 10000 THEN t - 10000 ELSE 10 * t
+NoteUs(q, T) == (q * 150000000) \div T                \* q quarter beats at T/10 beats per minute = q/4 * 60000/(T/10) ms
 RECURSIVE MelRep(_, _, _)
 MelRep(notes, i, T) ==
     IF i > Len(notes) THEN <<>>
